@@ -419,6 +419,56 @@ start :: fn do
 end
 ''', {"a": (0, 6)})
 
+T("if_expr_falsy_values", "value-of-if-and-case-expressions(bool, nil and other falsy-looking values in the branches)", '''
+E :: enum
+    A int,
+    B,
+end
+start :: fn do
+    c := ?c
+    p := ?p == 1
+    q := ?q == 1
+    r1 := if c == 1 do p else q end
+    print(r1)
+    r2 := if c == 1 do false else true end
+    print(r2)
+    r2 <=> (c != 1)
+    r3 := if c == 1 do p elif c == 2 do not p else q end
+    print(r3)
+    r4 := if p do false else q end
+    print(r4)
+    r5 := case (if c == 1 do E.A 1 else E.B end) do
+        A x -> p end
+        else q end
+    end
+    print(r5)
+    n := if c == 1 do nil else nil end
+    print(n)
+    i := if p do 0 else 1 end
+    print(i)
+    s := if p do "" else "x" end
+    print(s)
+    f := if p do 0.0 else 1.5 end
+    print(f)
+    t := if p do (false, 0) else (true, 1) end
+    print(t)
+    if (if c == 1 do p else q end) do print(1) else print(2) end
+    print((if c == 1 do p else q end) and q)
+    print((if c == 1 do p else q end) or q)
+    print(not (if c == 2 do false else p end))
+    g :: fn b: bool -> bool do
+        ret if b do false else true end
+    end
+    print(g(p))
+    print(g(g(q)))
+    k := 0
+    loop k < 2 do
+        k += 1
+        print(if k == c do false else p end)
+    end
+end
+''', {"c": (0, 2), "p": (0, 1), "q": (0, 1)})
+
 T("if_stmt_effects", "if-statement-effects", '''
 start :: fn do
     a := ?a
